@@ -233,7 +233,7 @@ theorem group0_noop (cfg : Cfg) (s : State) (g : Group) (t0 : Scalars) (hext : s
 theorem group0_set (cfg : Cfg) (s : State) (g : Group) : (group0 cfg s g).1.set = s.set := by
   unfold group0; simp only; split <;> split <;> simp
 
-theorem group0_ps (cfg : Cfg) (s : State) (g : Group) :
+theorem c04_group0_ps (cfg : Cfg) (s : State) (g : Group) :
     (group0 cfg s g).1.ps = (parserUpdate cfg s.set s.ps .ps g.d g.eb g.ed (2 * (g.b % 4))).1 := by
   unfold group0; simp only; split <;> split <;> simp
 
@@ -279,7 +279,7 @@ theorem group0_af (cfg : Cfg) (s : State) (g : Group) (hext : s.set.ext = false)
 theorem group0_estab (cfg : Cfg) (s : State) (g : Group) (hext : s.set.ext = false)
     (hlen : s.used.af.length = afBits) : Abs0 cfg (group0 cfg s g).1 g := by
   refine ⟨group0_tams cfg s g hext, ?_, group0_af cfg s g hext hlen⟩
-  rw [group0_set, group0_ps]
+  rw [group0_set, c04_group0_ps]
   exact parserUpdate_idem_self ..
 
 /-! ## group1 -/
@@ -363,23 +363,23 @@ def Abs2 (cfg : Cfg) (s : State) (g : Group) : Prop :=
       parserUpdate cfg s.set (s.rt (g.b / 16 % 2)) .rt g.d g.eb g.ed
           (if !g.versionB then 4 * (g.b % 16) + 2 else 2 * (g.b % 16)) = (s.rt (g.b / 16 % 2), false)))
 
-theorem setRt_rt_same (s : State) (fl : Nat) : s.setRt fl (s.rt fl) = s := by
+theorem c04_setRt_rt_same (s : State) (fl : Nat) : s.setRt fl (s.rt fl) = s := by
   unfold State.setRt State.rt; split <;> rfl
 
 theorem g2s2_of_same {s : State} {g : Group} (h : g.eb = 0 → ((g.b / 16 % 2 : Nat) : Int) = s.lastRt) :
-    g2s2 s g = s ∧ clr2 s g = false := by
+    c04_g2s2 s g = s ∧ clr2 s g = false := by
   have : (decide (g.eb = 0) && (((g.b / 16 % 2 : Nat) : Int) != s.lastRt)) = false := by
     by_cases heb : g.eb = 0
     · simp [h heb]
     · simp [heb]
-  unfold g2s2 clr2
+  unfold c04_g2s2 clr2
   simp only [this, Bool.false_and, Bool.false_eq_true, if_false]
   exact ⟨trivial, trivial⟩
 
 theorem group2_noop (cfg : Cfg) (s : State) (g : Group) (h : Abs2 cfg s g) : group2 cfg s g = (s, []) := by
   obtain ⟨h1, h2⟩ := h
   obtain ⟨e1, e2⟩ := g2s2_of_same h1
-  rw [group2_eq, e1, e2]
+  rw [c04_group2_eq, e1, e2]
   rcases h2 with h2 | ⟨h2, h3⟩
   · rw [if_pos h2]
   · split
@@ -388,14 +388,14 @@ theorem group2_noop (cfg : Cfg) (s : State) (g : Group) (h : Abs2 cfg s g) : gro
       · have h2' := h2 hv
         simp only [hv, Bool.not_false, if_true] at h3 ⊢
         simp only [h2', h3]
-        simp [setRt_rt_same]
+        simp [c04_setRt_rt_same]
       · simp only [hv, Bool.not_true, Bool.false_eq_true, if_false] at h3 ⊢
         simp only [h3]
-        simp [setRt_rt_same]
+        simp [c04_setRt_rt_same]
 
-theorem g2s2_lastRt (s : State) (g : Group) (heb : g.eb = 0) :
-    ((g.b / 16 % 2 : Nat) : Int) = (g2s2 s g).lastRt := by
-  unfold g2s2
+theorem c04_g2s2_lastRt (s : State) (g : Group) (heb : g.eb = 0) :
+    ((g.b / 16 % 2 : Nat) : Int) = (c04_g2s2 s g).lastRt := by
+  unfold c04_g2s2
   simp only [heb, decide_true, Bool.true_and]
   cases hsw : (((g.b / 16 % 2 : Nat) : Int) != s.lastRt)
   · simp only [Bool.false_and, Bool.false_eq_true, if_false]
@@ -403,8 +403,8 @@ theorem g2s2_lastRt (s : State) (g : Group) (heb : g.eb = 0) :
   · simp
 
 theorem group2_estab (cfg : Cfg) (s : State) (g : Group) : Abs2 cfg (group2 cfg s g).1 g := by
-  rw [group2_eq]
-  by_cases hg : (g.eb != 0 && ((g.b / 16 % 2 : Nat) : Int) != (g2s2 s g).lastRt && (g2s2 s g).lastRt != -1) = true
+  rw [c04_group2_eq]
+  by_cases hg : (g.eb != 0 && ((g.b / 16 % 2 : Nat) : Int) != (c04_g2s2 s g).lastRt && (c04_g2s2 s g).lastRt != -1) = true
   · rw [if_pos hg]
     have heb : g.eb ≠ 0 := by
       intro h; simp [h] at hg
@@ -412,7 +412,7 @@ theorem group2_estab (cfg : Cfg) (s : State) (g : Group) : Abs2 cfg (group2 cfg 
   · rw [if_neg hg]
     refine ⟨fun heb => ?_, Or.inr ⟨fun hv => ?_, ?_⟩⟩
     · simp only [setRt_lastRt]
-      exact g2s2_lastRt s g heb
+      exact c04_g2s2_lastRt s g heb
     · simp only [setRt_set, setRt_rt_self, hv, Bool.not_false, if_true]
       exact parserUpdate_idem_fst cfg _ _ .rt g.c g.d g.eb g.ec g.ed _ _ (by omega)
     · simp only [setRt_set, setRt_rt_self]
@@ -481,8 +481,8 @@ theorem process_noop (cfg : Cfg) (s : State) (g : Group) (hext : s.set.ext = fal
   simp only [e1, List.nil_append]
   exact ⟨t, a, b⟩
 
-theorem g2s2_set (s : State) (g : Group) : (g2s2 s g).set = s.set := by
-  unfold g2s2
+theorem c04_g2s2_set (s : State) (g : Group) : (c04_g2s2 s g).set = s.set := by
+  unfold c04_g2s2
   simp only
   generalize (decide (g.eb = 0) && ((g.b / 16 % 2 : Nat) : Int) != s.lastRt) = sw
   generalize (sw && s.lastRt != -1 && getAvailable (s.rt (g.b / 16 % 2))) = clr
@@ -495,9 +495,9 @@ theorem dispatch_set (cfg : Cfg) (s : State) (g : Group) : (dispatch cfg s g).1.
   split
   · unfold group1; split <;> simp
   split
-  · rw [group2_eq]; split
-    · exact g2s2_set s g
-    · simp only [setRt_set]; exact g2s2_set s g
+  · rw [c04_group2_eq]; split
+    · exact c04_g2s2_set s g
+    · simp only [setRt_set]; exact c04_g2s2_set s g
   split
   · exact congrArg State.set (group4_noop s g).1
   split
